@@ -178,7 +178,7 @@ PROPS = {
                 ("dec", "u32", "optional '-' + 6 symbolic decimal digits", True), ("dec", "i32", "optional '-' + 6 symbolic decimal digits", False),
                 ("dec", "u32b", "optional '-' + '42949' + 6 symbolic digits (around 2^32)", True), ("dec", "i32b", "optional '-' + '21474' + 6 symbolic digits (around 2^31)", True),
                 ("dec", "u64", "optional '-' + '18446744073709' + 7 symbolic digits (around 2^64)", True), ("dec", "i64", "optional '-' + '9223372036854' + 7 symbolic digits (around 2^63)", True),
-                ("dec", "u64b", "optional '-' + 9 symbolic digits", False),
+                ("dec", "u64b", "optional '-' + 6 symbolic digits", False),
             ]
         ] + [
             {"engine": "E2", "module": "lib", "harness": "h_ifdata_uninterpreted", "functions": ["ifdata::parse_unknown_ifdata_start", "ifdata::parse_unknown_ifdata", "ifdata::parse_unknown_taggedstruct", "a2ml::GenericIfData::write_item"],
@@ -254,9 +254,9 @@ PROPS = {
                         "each case keeps one helper alive from exactly one reference site (14 sites incl. STATUS_STRING_REF, AXIS_DESCR in TYPEDEF_CHARACTERISTIC, INSTANCE OVERWRITE, S_REC_LAYOUT, USER_RIGHTS) next to one unreferenced helper of every kind"],
         "jobs": [
             {"engine": "E2", "module": "lib", "harness": "h_cleanup_sites", "functions": ["A2lFile::cleanup", "cleanup::cleanup", "cleanup::groups::*", "cleanup::functions::*", "cleanup::compu_methods::*", "cleanup::record_layouts::cleanup", "checker::check"],
-             "bound": "15 template modules (baseline + 14 single keeping sites); cleanup applied twice", "timeout": 400, "extra_modules": ["tokenizer"], "validate": 15},
+             "bound": "16 template modules (baseline + 14 single keeping sites + a helper whose only referrer is removed); cleanup applied twice", "timeout": 400, "extra_modules": ["tokenizer"], "validate": 15},
             {"engine": "E2", "module": "lib", "harness": "h_cleanup_unit_chain", "functions": ["cleanup::compu_methods::remove_unused_sub_elements"],
-             "bound": "REF_UNIT chains of length 0..=3 not anchored in any COMPU_METHOD; cleanup applied twice", "timeout": 200, "extra_modules": ["tokenizer"]},
+             "bound": "REF_UNIT chains of length 0..=5, anchored in a used COMPU_METHOD or not, defined front-to-back or back-to-front; cleanup applied twice", "timeout": 200, "extra_modules": ["tokenizer"]},
         ],
     },
     "C09": {
@@ -280,6 +280,8 @@ PROPS = {
              "bound": "5 scenarios: all names conflict / identical copy / disjoint names / into empty / from empty", "timeout": 600, "extra_modules": ["tokenizer"], "validate": 5},
             {"engine": "E2", "module": "lib", "harness": "h_merge_unique_name", "msg_prefix": "C08", "functions": ["merge::make_unique_name", "merge::calculate_item_actions", "merge::merge_unit"],
              "bound": "UNIT namespace with pre-existing X.MERGE / X.MERGE2 names in A and/or B (symbolic presence bits), conflicting X", "timeout": 400, "extra_modules": ["tokenizer"]},
+            {"engine": "E2", "module": "lib", "harness": "h_merge_named_union", "msg_prefix": "C08", "functions": ["merge::merge_function", "merge::merge_group"],
+             "bound": "same-name FUNCTION / GROUP: A's element without members and with own attributes, B's with members (plus the 2 renaming scenarios)", "timeout": 600, "extra_modules": ["tokenizer"]},
             {"engine": "E2", "module": "lib", "harness": "h_merge_cross_kind", "msg_prefix": "C08", "functions": ["merge::merge_objects", "merge::merge_compu_tab", "module::Module::objects", "module::Module::compu_tabs", "module::Module::typedefs"],
              "bound": "same name used by elements of different kinds of one namespace in A and B (object kinds, table kinds, typedef kinds; symbolic kind choice)", "timeout": 400, "extra_modules": ["tokenizer"]},
         ],
